@@ -27,7 +27,7 @@ CTXS = [[], [], [], [], [], [], [], [], ["numpy.einsum"], ["numpy.numpylike"], [
 # ------------------------------------------------------------------------------------------------
 # pool of descriptors (a pure function of the master seed and the pool size)
 # ------------------------------------------------------------------------------------------------
-ALIAS_KINDS = ["space", "kworder", "kw-float", "kw-npint", "kw-npfloat", "kw-bool", "kw-0d-int", "kw-0d-float", "neighbour", "tensor-factory", "tensor-dtype", "tensor-scalar"]
+ALIAS_KINDS = ["space", "kworder", "kw-float", "kw-npint", "kw-npfloat", "kw-bool", "kw-0d-int", "kw-0d-float", "neighbour", "tensor-factory", "tensor-factory-varkw", "tensor-factory-name", "tensor-dtype", "tensor-scalar"]
 
 
 def applicable_alias_kinds(d):
@@ -44,7 +44,7 @@ def applicable_alias_kinds(d):
         out.append("neighbour")
     nd = [t for t in d["tensors"] if "shape" in t]
     if nd:
-        out += ["tensor-factory", "tensor-dtype"]
+        out += ["tensor-factory", "tensor-factory-varkw", "tensor-factory-name", "tensor-dtype"]
         if any(t["shape"] == [] for t in nd):
             out.append("tensor-scalar")
     return out
@@ -86,8 +86,10 @@ def make_alias(r, d, kind):
         if kind == "tensor-scalar":
             v = t["data"][0]
             d["tensors"][j] = {"scalar": v, "type": r.choice(["float", "np.float64", "np.float32"]) if t["dtype"].startswith("float") else r.choice(["int", "np.int64", "float"])}
-        elif kind == "tensor-factory":
-            d["tensors"][j] = {"factory": {"of": t, "mode": "ok"}}
+        elif kind.startswith("tensor-factory"):
+            nd0 = [j2 for j2, t2 in enumerate(d["tensors"]) if "shape" in t2]
+            j = nd0[0]  # always the first tensor: the factory aliases of one base differ only in the factory's signature
+            d["tensors"][j] = {"factory": {"of": d["tensors"][j], "mode": "ok", "sig": {"tensor-factory": "plain", "tensor-factory-varkw": "varkw", "tensor-factory-name": "name"}[kind]}}
         elif t["dtype"] == "int64":
             d["tensors"][j] = dict(t, dtype="float64", data=[float(x) for x in t["data"]])
         elif t["dtype"] == "float64":
@@ -139,7 +141,7 @@ def gen_pool(master, size):
         base = len(pool)
         pool.append({"d": d, "ctx": ctx, "alias_of": None})
         kinds = applicable_alias_kinds(d)
-        for _ in range(r.choice([0, 1, 1, 2, 2])):
+        for _ in range(r.choice([0, 1, 1, 2, 2, 3])):
             if len(pool) >= size:
                 break
             m = min(alias_count.get(k, 0) for k in kinds)  # stratified: the rarest applicable kind first
